@@ -379,6 +379,13 @@ impl<'a> Work<'a> {
         self.graph.files.lookup(&to_owned_canon_path(name))
     }
 
+    /// Whether the manifest mentions the file at all, as opposed to it only
+    /// being known from the build log.
+    pub fn is_in_manifest(&self, id: FileId) -> bool {
+        let file = self.graph.file(id);
+        file.input.is_some() || !file.dependents.is_empty()
+    }
+
     pub fn want_file(&mut self, id: FileId) -> anyhow::Result<()> {
         let mut stack = Vec::new();
         self.build_states.want_file(&self.graph, &mut stack, id)?;
